@@ -924,6 +924,28 @@ func main() {
 		b.WriteString("def hookUpgradeables : List (List Bytes) := [" + strings.Join(ul, ",\n ") + "]\n")
 		return b.String()
 	})
+	// every call of installHooks in package commands, as "<file>:<argument>": the hook installation that
+	// other commands perform on their way never forces; only `git lfs update` passes its --force flag on
+	emit("installHooksCalls", func() string {
+		var calls []string
+		for name, f := range cmds.files {
+			ast.Inspect(f, func(n ast.Node) bool {
+				ce, ok := n.(*ast.CallExpr)
+				if !ok {
+					return true
+				}
+				if id, ok := ce.Fun.(*ast.Ident); ok && id.Name == "installHooks" && len(ce.Args) == 1 {
+					calls = append(calls, filepath.Base(name)+":"+exprText(ce.Args[0]))
+				}
+				return true
+			})
+		}
+		if len(calls) == 0 {
+			die("no installHooks call found")
+		}
+		sortStrings(calls)
+		return "def installHooksCalls : List Bytes := " + bytesList(calls)
+	})
 	emit("hookReadWindow", func() string { return fmt.Sprintf("def hookReadWindow : Nat := %d", lfs.num("hookSizeLimit")) })
 	emit("filterAttribute", func() string {
 		// the composite literal returned by filterAttribute(): Properties and Upgradeables
